@@ -304,6 +304,10 @@ def render_v2(doc):
     rng.shuffle(names)
     pmap = {p: names[i] for i, p in enumerate(POOL)}
     pmap["root"] = "sgx_root"          # an ELEMENT that carries the reserved name of the root of trust
+    # element names are JSON values, not necessarily strings: doc["rawnames"] renders pool names as numbers,
+    # booleans or null - as `name`, as `signed_by` and in `targets` alike
+    for p_, v_ in (doc.get("rawnames") or {}).items():
+        pmap[p_] = v_
     items = doc["items"]
     n = len(items)
     root_key = _p256(rng)
@@ -655,6 +659,28 @@ def directed_docs(rng):
     return docs
 
 
+RAW_NAMES = [7, 7.0, True, None, 0, -1, 1.5, "7", "True", "None"]
+
+
+def rawname_docs(rng):
+    """Version-2 documents (quote <- attestation key <- x509 <- root) in which element names are not strings:
+    int, float, bool, null - as the target, as a certifier (so that `signed_by` is the number), and a string
+    and a number that print the same side by side; plus the version-1 rendering (non-string names are not
+    valid there: the document must be refused)."""
+    chain = [("a", "sgx_quote", "b"), ("b", "sgx_attestation_key", "c"), ("c", "x509_pem", "root")]
+    docs = []
+    combos = [{"a": v} for v in (7, 7.0, True, None, 0, 1.5)] + [{"b": v} for v in (7, 7.0, True, None)] + \
+             [{"c": v} for v in (7, None, False)] + \
+             [{"a": 7, "b": "7"}, {"a": "7", "b": 7}, {"b": 7, "c": "7"}, {"a": True, "b": "True"}, {"a": None, "b": "None"},
+              {"a": 1, "b": True}, {"a": 7, "b": 7.0}, {"a": 7, "b": 8, "c": 9}]
+    for raw in combos:
+        for tgts in (["a"], ["a", "a"]):
+            items = [{"name": n, "type": t, "by": by, "fld": "ok", "ok": True} for n, t, by in chain]
+            docs.append({"flavour": "v2", "seed": rng.randrange(1 << 62), "ver": "ok", "tgtc": "list", "elsc": "list",
+                         "targets": tgts, "items": items, "rawnames": raw, "src": "directed"})
+    return docs
+
+
 def _random_item(rng, pool, p_defect, flavour):
     r = rng.random()
     if r < p_defect:
@@ -695,7 +721,12 @@ def random_doc(rng):
     nt = rng.choice([0, 1, 1, 2, 2, 3, 4])
     targets = [rng.choice(present) if rng.random() < 0.95 else "ghost" for _ in range(nt)]
     r = rng.random()
-    return {"flavour": fl, "seed": rng.randrange(1 << 62),
+    raw = {}
+    if fl == "v2" and rng.random() < 0.2:
+        for p_ in rng.sample(pool, min(len(pool), rng.choice([1, 1, 2]))):
+            if p_ != "root":
+                raw[p_] = rng.choice(RAW_NAMES)
+    return {"flavour": fl, "seed": rng.randrange(1 << 62), "rawnames": raw,
             "ver": "ok" if r < 0.95 else rng.choice(["swapped", "unsupported", "missing", "mistyped"]),
             "tgtc": "list" if rng.random() < 0.97 else rng.choice(["missing", "nonlist"]),
             "elsc": "list" if rng.random() < 0.96 else rng.choice(["missing", "noniter", "emptyiter", "baditer"]),
